@@ -18,6 +18,7 @@ LEVEL = "exploration"
 NEEDS_SEDPACK = True
 WORKERS = 14
 CASE_TIMEOUT = 240
+QUIESCENCE_SCOPE = "process"   # helpers are polling feeders only
 QUIESCENCE_AFTER = 20.0
 REQUIRED_OBS = ["schedules", "distinct_schedules", "stress_runs", "dfs_schedules"]
 RULE = ("schedules of consumer + T worker threads at queue-operation granularity for T in 1..5, n in 0..2T+6 and "
